@@ -117,6 +117,18 @@ impl RefType {
 /// for `$e = 1 + 1` would be read as `2 * 1 + 1`, and `&$t` for `$t = dyn A + B` as `&dyn A + B`.
 /// Everywhere else the group only hides the type or expression it holds, so it is dropped.
 pub(crate) fn normalize_invisible_groups(input: &mut syn::DeriveInput) {
+    syn::visit_mut::VisitMut::visit_derive_input_mut(&mut InvisibleGroupsNormalizer, input);
+}
+
+/// Does what [`normalize_invisible_groups()`] does, for a type parsed from an attribute's arguments.
+#[cfg(any(feature = "as_ref", feature = "from", feature = "into", feature = "try_from"))]
+pub(crate) fn normalize_invisible_groups_in_type(ty: &mut syn::Type) {
+    syn::visit_mut::VisitMut::visit_type_mut(&mut InvisibleGroupsNormalizer, ty);
+}
+
+struct InvisibleGroupsNormalizer;
+
+const _: () = {
     use syn::visit_mut::{self, VisitMut};
 
     fn ungroup_expr(expr: &mut syn::Expr) {
@@ -157,9 +169,7 @@ pub(crate) fn normalize_invisible_groups(input: &mut syn::DeriveInput) {
         }
     }
 
-    struct Normalizer;
-
-    impl VisitMut for Normalizer {
+    impl VisitMut for InvisibleGroupsNormalizer {
         fn visit_attribute_mut(&mut self, _: &mut syn::Attribute) {}
 
         fn visit_variant_mut(&mut self, variant: &mut syn::Variant) {
@@ -211,9 +221,7 @@ pub(crate) fn normalize_invisible_groups(input: &mut syn::DeriveInput) {
             visit_mut::visit_expr_mut(self, expr);
         }
     }
-
-    Normalizer.visit_derive_input_mut(input);
-}
+};
 
 /// Replaces every `Self` in the provided type with the provided tokens (the deriving type with its
 /// generic arguments), so the type may be spelled where `Self` means something else.
@@ -2138,7 +2146,12 @@ pub(crate) mod attr {
             fn parse(input: ParseStream<'_>) -> syn::Result<Self> {
                 input
                     .parse_terminated(syn::Type::parse, Token![,])
-                    .map(Self)
+                    .map(|mut tys| {
+                        // A `$t:ty` fragment of a `macro_rules!` is the type it holds.
+                        tys.iter_mut()
+                            .for_each(crate::utils::normalize_invisible_groups_in_type);
+                        Self(tys)
+                    })
             }
         }
 
